@@ -111,6 +111,9 @@ class Buffer:
                 if self.check_buffer_over_data_threshold(b):
                     if self.env.now in self.stored_times:
                         continue
+                    # Data may still be arriving with nothing stored yet
+                    if not self.hot[b].observations['stored']:
+                        continue
                     if self.cold[b].has_capacity_for(
                         self.hot[b].observations['stored'][
                                     -1].total_data_size
